@@ -28,6 +28,8 @@ type C13Case struct {
 	FinalNL bool     `json:"final_nl"`
 	Trail   []string `json:"trail,omitempty"` // extra trailing blank / white-space lines
 	Via     string   `json:"via"`             // id | file | all
+	// Github: the rewriting runs are made with -o github (the output format must not change what is written)
+	Github bool `json:"github,omitempty"`
 	// Dir: name of the test file's directory below tests/regression/tests ("" = REQUEST-<category>-X); any name is legal
 	Dir string   `json:"dir,omitempty"`
 	Lab []string `json:"labels,omitempty"`
@@ -184,6 +186,10 @@ func genC13(t *rapid.T) C13Case {
 		lab["no-tests"] = true
 	}
 	c.Via = rapid.SampledFrom([]string{"id", "id", "file", "all"}).Draw(t, "via")
+	c.Github = rapid.IntRange(0, 3).Draw(t, "github") == 0
+	if c.Github {
+		lab["output-github"] = true
+	}
 	c.Dir = rapid.SampledFrom([]string{"", "", "", "rce-unix", "x", "REQUEST-ALL", "0"}).Draw(t, "dir")
 	if c.Dir != "" {
 		lab["directory-without-category-number"] = true
@@ -200,9 +206,11 @@ func checkC13(c C13Case) Outcome {
 	defer sb.Close()
 	rel := "tests/regression/tests/" + c.dir() + "/" + c.Rule + c.Ext
 	other := "tests/regression/tests/REQUEST-911-Y/911100.yaml"
-	otherContent := "---\ntests:\n  - test_id: 1\n  - test_id: 2\n"
+	// correctly numbered neighbours, with legacy titles too: every file is numbered on its own
+	otherContent := "---\ntests:\n  - test_id: 1\n    test_title: 911100-1\n  - test_id: 2\n    test_title: 911100-2\n"
+	laterContent := "---\ntests:\n  - test_title: 999100-1\n  - test_title: 999100-2\n  - test_title: 999100-3\n"
 	later := "tests/regression/tests/REQUEST-999-Z/999100.yaml"
-	tree := cli.Tree{"regex-assembly/": "", rel: content, other: otherContent, later: otherContent, "tests/regression/tests/REQUEST-999-Z/notes.txt": "not a test file\n",
+	tree := cli.Tree{"regex-assembly/": "", rel: content, other: otherContent, later: laterContent, "tests/regression/tests/REQUEST-999-Z/notes.txt": "not a test file\n",
 		"tests/regression/tests/" + c.dir() + "/.gitkeep": "", "tests/regression/tests/" + c.dir() + "/0-readme.txt": "  - test_id: 99\n",
 		"tests/regression/tests/" + c.dir() + "/900001.yaml.orig": "  - test_id: 99\n", "tests/regression/tests/.DS_Store": "x"}
 	root := sb.Path("crs")
@@ -221,6 +229,9 @@ func checkC13(c C13Case) Outcome {
 	}
 	run := func(check bool) cli.Result {
 		args := []string{"-d", root, "util", "renumber-tests"}
+		if c.Github {
+			args = []string{"-o", "github", "-d", root, "util", "renumber-tests"}
+		}
 		if check {
 			args = append(args, "--check")
 		}
@@ -242,7 +253,7 @@ func checkC13(c C13Case) Outcome {
 		out.Violation = fmt.Sprintf("renumber-tests fails (exit %d)", r1.Exit)
 		return out
 	}
-	if sb.Read("crs/"+other) != otherContent {
+	if sb.Read("crs/"+other) != otherContent || sb.Read("crs/"+later) != laterContent {
 		out.Violation = "a correctly numbered file of another rule was changed"
 		return out
 	}
